@@ -816,3 +816,41 @@ package server
 //@   modifies msg.OutputType
 //@   ensures [json-reply] result1 == nil && old(msg.OutputType) == JSON && len(msg.Args) == 1 ==> jsonDoc(result0)
 //@   ensures [json-reply.set] result1 == nil && msg.OutputType == JSON && len(msg.Args) == 2 ==> jsonDoc(result0)
+
+// JSON replies of further handlers (only the reply shape is specified here)
+//@ func Server.cmdTYPE
+//@   frame-by-effects
+//@   requires s != nil && msg != nil
+//@   modifies steps, perCall
+//@   ensures [json-reply] result1 == nil && msg.OutputType == JSON ==> jsonDoc(result0)
+//@ func Server.cmdTTL
+//@   frame-by-effects
+//@   requires s != nil && msg != nil
+//@   modifies steps, perCall
+//@   ensures [json-reply] result1 == nil && msg.OutputType == JSON ==> jsonDoc(result0)
+//@ func Server.cmdEXISTS
+//@   frame-by-effects
+//@   requires s != nil && msg != nil
+//@   modifies steps, perCall
+//@   ensures [json-reply] result1 == nil && msg.OutputType == JSON ==> jsonDoc(result0)
+//@ func Server.cmdFEXISTS
+//@   frame-by-effects
+//@   requires s != nil && msg != nil
+//@   modifies steps, perCall
+//@   ensures [json-reply] result1 == nil && msg.OutputType == JSON ==> jsonDoc(result0)
+//@ func Server.cmdHEALTHZ
+//@   frame-by-effects
+//@   requires s != nil && msg != nil
+//@   modifies steps, perCall
+//@   ensures [json-reply] result1 == nil && msg.OutputType == JSON ==> jsonDoc(result0)
+//@ func Server.cmdKEYS
+//@   frame-by-effects
+//@   requires s != nil && msg != nil
+//@   modifies steps, perCall
+//@   ensures [json-reply] result1 == nil && msg.OutputType == JSON ==> jsonDoc(result0)
+//@ func Server.cmdFLUSHDB
+//@   frame-by-effects
+//@   entry-assume registriesNonNil(s) && allstr(k, (*s.cols)[k] != nil ==> colInv((*s.cols)[k]))
+//@   requires s != nil && msg != nil
+//@   modifies steps, perCall
+//@   ensures [json-reply] result2 == nil && msg.OutputType == JSON ==> jsonDoc(result0)
